@@ -33,6 +33,7 @@ type Config struct {
 	MaxIdleMs    int      `json:"max_idle_ms"`              // simulated time without runnable goroutine before quiescence is declared
 	AuxRepeatPct int      `json:"aux_repeat_pct,omitempty"` // percent of the values of the math/rand shim that repeat one of the last four
 	AuxSeed      uint64   `json:"aux_seed"`                 // seed of math/rand shim and other non-decision randomness
+	MapOrder     int      `json:"map_order,omitempty"`      // 1: a range over a map of the code under test starts at a drawn key and runs in a drawn direction (0: sorted keys)
 	Trace        bool     `json:"-"`
 }
 
@@ -101,6 +102,7 @@ type Stats struct {
 	Switches    int64   `json:"switches"` // decisions that changed the running goroutine
 	Yields      int64   `json:"yields"`   // yield points executed by the token holder
 	Preempts    int64   `json:"preempts"`
+	MapOrders   int64   `json:"map_orders"` // ranges over maps whose order the run decided
 	Goroutines  int     `json:"goroutines"`
 	SimSeconds  float64 `json:"sim_seconds"`
 	Fingerprint uint64  `json:"fingerprint"`
@@ -731,6 +733,33 @@ func SortedKeys(m interface{}) []interface{} {
 	out := make([]interface{}, len(keys))
 	for i, k := range keys {
 		out[i] = k.Interface()
+	}
+	return out
+}
+
+// RangeKeys gives the keys of a map in the order a range loop of the code
+// under test meets them. The language promises no order: with MapOrder set the
+// run decides (two tape entries: where the sorted keys start, and in which
+// direction they run), otherwise the keys come sorted.
+func RangeKeys(m interface{}) []interface{} {
+	keys := SortedKeys(m)
+	s := cur.Load()
+	if s == nil || s.cfg.MapOrder == 0 || len(keys) < 2 {
+		return keys
+	}
+	n := len(keys)
+	s.mu.Lock()
+	start := s.tape.draw(n, func(r *rand.Rand) int { return r.IntN(n) })
+	back := s.tape.draw(2, func(r *rand.Rand) int { return r.IntN(2) })
+	s.stats.MapOrders++
+	s.mu.Unlock()
+	out := make([]interface{}, n)
+	for i := range out {
+		j := (start + i) % n
+		if back == 1 {
+			j = (start - i + n) % n
+		}
+		out[i] = keys[j]
 	}
 	return out
 }
